@@ -30,6 +30,7 @@
 #include "race.h"
 #include "sim.h"
 #include "tx.h"
+#include "ttx.h"
 
 extern "C" {
 #include "src/vbi.h"
@@ -102,7 +103,8 @@ struct Lin {
 };
 
 // ---- caption byte stream ------------------------------------------------------------------------------------
-struct Frame { uint8_t f1[2], f2[2]; };
+struct TtxLine { uint8_t b[42]; };
+struct Frame { uint8_t f1[2], f2[2]; std::vector<TtxLine> ttx; double ts = 0; };
 static uint8_t par(int c) { return tx::odd_parity((uint8_t)c); }
 
 static std::vector<Frame> make_caption_stream(uint64_t seed, int nframes) {
@@ -124,11 +126,44 @@ static std::vector<Frame> make_caption_stream(uint64_t seed, int nframes) {
     }
   }
   std::vector<Frame> out((size_t)nframes);
+  double ts = 1000.0;
   for (int i = 0; i < nframes; i++) {
     out[(size_t)i].f1[0] = par(pr[0][(size_t)i].first); out[(size_t)i].f1[1] = par(pr[0][(size_t)i].second);
     out[(size_t)i].f2[0] = par(pr[1][(size_t)i].first); out[(size_t)i].f2[1] = par(pr[1][(size_t)i].second);
+    ts += 1001.0 / 30000.0;
+    out[(size_t)i].ts = ts;
   }
   return out;
+}
+
+// Teletext traffic for the decoding thread ("one thread feeds the service decoder": every service): a small carousel
+// of rolling-header pages in two magazines, with the things that make packet.c and vbi.c take chswcd_mutex and reset
+// the caption decoder from inside vbi_decode(): headers hit by a parity error (comparison inconclusive), a header
+// of another network (channel switch detected by the decoder itself), dropped frames (timestamp gap -> countdown).
+static void add_teletext(std::vector<Frame>& fr, uint64_t seed, int pct, int fault_pct, RunCtx& ctx) {
+  Rng r(seed, "teletext");
+  std::vector<TtxLine> q;   // packets waiting for a slot
+  int seq = 0; double shift = 0;
+  bool other_network = false;
+  for (size_t i = 0; i < fr.size(); i++) {
+    if ((int)r.below(100) < fault_pct && r.chance(1, 3)) { shift += 0.2 + (double)r.below(30) / 10.0; ctx.count("fault_frames_dropped"); }   // frames dropped
+    fr[i].ts += shift;
+    if ((int)r.below(100) >= pct) continue;
+    if (q.empty()) {
+      int mag = r.chance(3, 4) ? 1 : 2;
+      int page = (int)((seq++ % 6) | ((seq / 6 % 2) << 4));   // 100-105, 110-115
+      if ((int)r.below(100) < fault_pct && r.chance(1, 4)) { other_network = !other_network; ctx.count("fault_foreign_network_header"); }
+      char t[40]; snprintf(t, sizeof t, other_network ? "OTHERNET %d%02X  Elsewhere TV   12:%02d:%02d" : "ZSIMTEXT %d%02X Network News AB12:%02d:%02d", mag, page, (int)(i / 60 % 60), (int)(i % 60));
+      uint8_t text[32]; memcpy(text, t, 32);
+      ttx::Packet h = ttx::header(mag, page, 0, 0, text);
+      if ((int)r.below(100) < fault_pct) { h.b[10 + r.below(32)] ^= (uint8_t)(1 << r.below(8)); ctx.count("fault_header_parity_error"); }   // parity error in the header text
+      TtxLine l; memcpy(l.b, h.b, 42); q.push_back(l);
+      int rows = 1 + (int)r.below(3);
+      for (int y = 1; y <= rows; y++) { uint8_t ch[40]; for (auto& c : ch) c = (uint8_t)(0x20 + r.below(0x5F)); ttx::Packet p = ttx::row(mag, y, ch); memcpy(l.b, p.b, 42); q.push_back(l); }
+    }
+    size_t n = 1 + r.below(3);
+    for (size_t k = 0; k < n && !q.empty(); k++) { fr[i].ttx.push_back(q.front()); q.erase(q.begin()); }
+  }
 }
 
 static uint64_t page_hash(vbi_bool ok, const vbi_page& pg) {
@@ -163,6 +198,9 @@ struct C20 : World {
     if (mode == 0) {
       p.knobs["frames"] = (int64_t)r.range(20, thorough ? 400 : 100);
       p.knobs["handler_fetches"] = r.chance(1, 3);
+      // Teletext on the same decoder (half of the runs), with damaged / foreign headers and dropped frames
+      p.knobs["ttx_pct"] = r.chance(1, 2) ? 0 : 20 + (int64_t)r.below(81);
+      p.knobs["ttx_fault_pct"] = r.chance(1, 4) ? 0 : 2 + (int64_t)r.below(30);
       int nf = (int)r.range(1, 2);
       for (int t = 0; t < nf; t++) {
         int n = (int)r.range(5, thorough ? 200 : 50);
@@ -200,6 +238,8 @@ struct C20 : World {
   static CapRun* gc;
   static void cap_handler(vbi_event* ev, void*) {
     CapRun& r = *gc;
+    if (ev->type == VBI_EVENT_TTX_PAGE) { HarnessScope hs; r.ctx.count("ttx_page_events"); return; }
+    if (ev->type == VBI_EVENT_NETWORK) { HarnessScope hs; r.ctx.count("network_events_raised_by_the_decoding_thread"); return; }
     if (ev->type != VBI_EVENT_CAPTION || !r.handler_fetches) return;
     vbi_page pg; memset(&pg, 0, sizeof pg);
     vbi_bool ok = vbi_fetch_cc_page(r.dec, &pg, ev->ev.caption.pgno, TRUE);
@@ -208,14 +248,17 @@ struct C20 : World {
   }
   static vbi_decoder* cap_new_decoder() {
     vbi_decoder* d = vbi_decoder_new();
-    if (d) vbi_event_handler_register(d, VBI_EVENT_CAPTION, cap_handler, nullptr);
+    if (d) vbi_event_handler_register(d, VBI_EVENT_CAPTION | VBI_EVENT_TTX_PAGE | VBI_EVENT_NETWORK, cap_handler, nullptr);
     return d;
   }
   static void cap_feed(CapRun& r, int i) {
-    vbi_sliced s[2]; memset(s, 0, sizeof s);
-    s[0].id = VBI_SLICED_CAPTION_525_F1; s[0].line = 21; s[0].data[0] = r.stream[(size_t)i].f1[0]; s[0].data[1] = r.stream[(size_t)i].f1[1];
-    s[1].id = VBI_SLICED_CAPTION_525_F2; s[1].line = 284; s[1].data[0] = r.stream[(size_t)i].f2[0]; s[1].data[1] = r.stream[(size_t)i].f2[1];
-    vbi_decode(r.dec, s, 2, 1000.0 + (double)(i + 1) * (1001.0 / 30000.0));
+    vbi_sliced s[8]; memset(s, 0, sizeof s);
+    const Frame& f = r.stream[(size_t)i];
+    int n = 0;
+    for (size_t k = 0; k < f.ttx.size() && n < 4; k++) { s[n].id = VBI_SLICED_TELETEXT_B; s[n].line = 7 + (uint32_t)k; memcpy(s[n].data, f.ttx[k].b, 42); n++; }
+    s[n].id = VBI_SLICED_CAPTION_525_F1; s[n].line = 21; s[n].data[0] = f.f1[0]; s[n].data[1] = f.f1[1]; n++;
+    s[n].id = VBI_SLICED_CAPTION_525_F2; s[n].line = 284; s[n].data[0] = f.f2[0]; s[n].data[1] = f.f2[1]; n++;
+    vbi_decode(r.dec, s, n, f.ts);
   }
   static uint64_t cap_exec(CapRun& r, const Op& op) {
     if (op.kind == "fetch") { vbi_page pg; memset(&pg, 0, sizeof pg); vbi_bool ok = vbi_fetch_cc_page(r.dec, &pg, 1 + (int)absmod(op.arg(0) - 1, 8), TRUE); return page_hash(ok, pg); }
@@ -226,6 +269,7 @@ struct C20 : World {
   void run_caption(const Plan& plan, RunCtx& ctx) {
     CapRun R(ctx, plan); gc = &R;
     R.stream = make_caption_stream((uint64_t)plan.knob("stream_seed", 1), 1 + (int)absmod(plan.knob("frames", 40) - 1, 600));
+    if (plan.knob("ttx_pct", 0) > 0) add_teletext(R.stream, (uint64_t)plan.knob("stream_seed", 1), (int)absmod(plan.knob("ttx_pct", 0), 101), (int)absmod(plan.knob("ttx_fault_pct", 0), 101), ctx);
     R.handler_fetches = plan.knob("handler_fetches", 0) != 0;
     R.lin.ctx = &ctx;
     std::vector<uint64_t> conc_handler;
